@@ -33,7 +33,7 @@ struct world
     sym::stub_integrand<T> f;
     sym::stub_channel_map<T> m;
     // symbolic parameters (created once per path)
-    T alpha, beta, minw;
+    T alpha = T(0.5), beta = T(0.5), minw = T(0.5);   // overwritten by params() of the integrator that has them
     std::vector<T> grid;        // user grid interior boundaries
     std::vector<T> weights;     // user weights
     std::vector<bool> wz;
